@@ -17,18 +17,35 @@ Lemma beq_neq : forall a b : bytes, a <> b -> beq a b = false.
 Proof. intros a b H. destruct (beq a b) eqn:E; [apply beq_eq in E; contradiction | reflexivity]. Qed.
 
 (* ------------------------------------------------------------------ key lookup *)
-Lemma find_key_spec : forall tr st kid k, find_key tr st kid = Some k ->
-  k_id k = kid /\ (In k tr \/ (find (has_id kid) tr = None /\ In k st)).
+(* the key found has the id asked for and sits in a layer before which no layer holds that id *)
+Lemma find_key_spec : forall layers kid k, find_key layers kid = Some k ->
+  k_id k = kid /\ exists before l after, layers = before ++ l :: after /\ In k l /\
+    forall l', In l' before -> find (has_id kid) l' = None.
 Proof.
-  intros tr st kid k H. unfold find_key in H.
-  destruct (find (has_id kid) tr) as [k'|] eqn:E.
-  - injection H as <-. apply find_some in E as [Hin Hid]. split; [apply beq_eq, Hid | left; exact Hin].
-  - apply find_some in H as [Hin Hid]. split; [apply beq_eq, Hid | right; split; [reflexivity | exact Hin]].
+  induction layers as [|l rest IH]; intros kid k H; cbn in H; [discriminate|].
+  destruct (find (has_id kid) l) as [k'|] eqn:E.
+  - injection H as <-. apply find_some in E as [Hin Hid]. split; [apply beq_eq, Hid|].
+    exists [], l, rest. repeat split; [exact Hin | intros l' []].
+  - destruct (IH _ _ H) as (Hid & before & l0 & after & -> & Hin & Hnone). split; [exact Hid|].
+    exists (l :: before), l0, after. repeat split; [exact Hin|].
+    intros l' [<-|Hl']; [exact E | apply Hnone, Hl'].
 Qed.
 
-(* a trusted key with the id shadows any stored key with the same id *)
-Lemma trusted_first : forall tr st st' kid k, find (has_id kid) tr = Some k -> find_key tr st kid = find_key tr st' kid.
-Proof. intros tr st st' kid k H. unfold find_key. rewrite H. reflexivity. Qed.
+(* the FIRST layer that holds the key id decides: whatever the later layers contain (an older or newer revision of the
+   same account-key, a key of another account with the same id, nothing) the same key is used *)
+Lemma first_layer_decides : forall before l after after' kid k,
+  (forall l', In l' before -> find (has_id kid) l' = None) -> find (has_id kid) l = Some k ->
+  find_key (before ++ l :: after) kid = Some k /\ find_key (before ++ l :: after') kid = Some k.
+Proof.
+  induction before as [|b before IH]; intros l after after' kid k Hnone Hl; cbn.
+  - rewrite Hl. split; reflexivity.
+  - rewrite (Hnone b (or_introl eq_refl)). apply IH; [|exact Hl]. intros l' Hl'. apply Hnone. right. exact Hl'.
+Qed.
+
+(* a trusted key with the id shadows every other layer *)
+Lemma trusted_first : forall tr rest rest' kid k, find (has_id kid) tr = Some k ->
+  find_key (tr :: rest) kid = Some k /\ find_key (tr :: rest') kid = Some k.
+Proof. intros tr rest rest' kid k H. apply (first_layer_decides [] tr rest rest' kid k); [intros l' [] | exact H]. Qed.
 
 (* ------------------------------------------------------------------ validity window *)
 Lemma valid_at_iff : forall k t, valid_at k t = true <-> k_since k <= t /\ match k_until k with Some u => t < u | None => True end.
@@ -95,34 +112,35 @@ Section WithVerify.
      sign-key id (trusted first, then stored) that belongs to the declared authority, passes the expiry check for the
      clock bounds, is valid at the assertion's timestamp, and whose constraints admit the assertion; verify holds on
      exactly the assertion's content and signature *)
-  Lemma accept_implies : forall tr st e l a, check verify tr st e l a = true ->
+  Lemma accept_implies : forall layers e l a, check verify layers e l a = true ->
     a_supported a = true /\
-    exists k, find_key tr st (a_sign_key a) = Some k /\
-      (In k tr \/ (find (has_id (a_sign_key a)) tr = None /\ In k st)) /\
+    exists k, find_key layers (a_sign_key a) = Some k /\
+      (exists before ly after, layers = before ++ ly :: after /\ In k ly /\
+         forall l', In l' before -> find (has_id (a_sign_key a)) l' = None) /\
       k_id k = a_sign_key a /\ k_account k = a_authority a /\
       valid_assuming k e l = true /\
       (forall t, a_timestamp a = Some t -> valid_at k t = true) /\
       can_sign k a = true /\
       verify (k_id k) (a_content a) (a_sig_core a) = true.
   Proof.
-    intros tr st e l a H. unfold check in H. apply andb_prop in H as [Hs H]. split; [exact Hs|].
-    destruct (find_key tr st (a_sign_key a)) as [k|] eqn:Ek; [|discriminate].
+    intros layers e l a H. unfold check in H. apply andb_prop in H as [Hs H]. split; [exact Hs|].
+    destruct (find_key layers (a_sign_key a)) as [k|] eqn:Ek; [|discriminate].
     repeat (apply andb_prop in H as [H ?]).
-    destruct (find_key_spec _ _ _ _ Ek) as [Hid Hin].
+    destruct (find_key_spec _ _ _ Ek) as [Hid Hin].
     exists k. repeat split; try assumption.
     - apply beq_eq, H.
     - intros t Ht. rewrite Ht in *. assumption.
   Qed.
 
   (* the same with the real clock: the key is valid NOW (since <= now < until) *)
-  Lemma accept_now_implies : forall tr st now a, check_now verify tr st now a = true ->
-    exists k, find_key tr st (a_sign_key a) = Some k /\ k_account k = a_authority a /\
+  Lemma accept_now_implies : forall layers now a, check_now verify layers now a = true ->
+    exists k, find_key layers (a_sign_key a) = Some k /\ k_account k = a_authority a /\
       k_since k <= now /\ (forall u, k_until k = Some u -> now < u) /\
       (forall t, a_timestamp a = Some t -> k_since k <= t /\ forall u, k_until k = Some u -> t < u) /\
       can_sign k a = true /\ verify (a_sign_key a) (a_content a) (a_sig_core a) = true.
   Proof.
-    intros tr st now a H. unfold check_now in H.
-    destruct (accept_implies _ _ _ _ _ H) as (_ & k & Ek & _ & Hid & Hacc & Hv & Hts & Hcs & Hver).
+    intros layers now a H. unfold check_now in H.
+    destruct (accept_implies _ _ _ _ H) as (_ & k & Ek & _ & Hid & Hacc & Hv & Hts & Hcs & Hver).
     rewrite valid_assuming_now in Hv. apply valid_at_iff in Hv as [Hv1 Hv2].
     exists k. repeat split; try assumption.
     - intros u Hu. rewrite Hu in Hv2. exact Hv2.
@@ -132,26 +150,26 @@ Section WithVerify.
   Qed.
 
   (* refusals, one per cause *)
-  Lemma unknown_key_rejected : forall tr st e l a, find_key tr st (a_sign_key a) = None -> check verify tr st e l a = false.
+  Lemma unknown_key_rejected : forall layers e l a, find_key layers (a_sign_key a) = None -> check verify layers e l a = false.
   Proof. intros. unfold check. rewrite H. apply andb_false_r. Qed.
 
-  Lemma other_authority_rejected : forall tr st e l a k, find_key tr st (a_sign_key a) = Some k ->
-    k_account k <> a_authority a -> check verify tr st e l a = false.
-  Proof. intros tr st e l a k Hk Hne. unfold check. rewrite Hk, (beq_neq _ _ Hne). cbn. apply andb_false_r. Qed.
+  Lemma other_authority_rejected : forall layers e l a k, find_key layers (a_sign_key a) = Some k ->
+    k_account k <> a_authority a -> check verify layers e l a = false.
+  Proof. intros layers e l a k Hk Hne. unfold check. rewrite Hk, (beq_neq _ _ Hne). cbn. apply andb_false_r. Qed.
 
-  Lemma expired_rejected : forall tr st now a k u, find_key tr st (a_sign_key a) = Some k ->
-    k_until k = Some u -> u <= now -> check_now verify tr st now a = false.
+  Lemma expired_rejected : forall layers now a k u, find_key layers (a_sign_key a) = Some k ->
+    k_until k = Some u -> u <= now -> check_now verify layers now a = false.
   Proof.
-    intros tr st now a k u Hk Hu Hle. unfold check_now, check. rewrite Hk, valid_assuming_now.
+    intros layers now a k u Hk Hu Hle. unfold check_now, check. rewrite Hk, valid_assuming_now.
     assert (valid_at k now = false) as ->.
     { unfold valid_at. rewrite Hu. apply andb_false_intro2. apply Z.ltb_ge. lia. }
     rewrite andb_false_r. cbn. apply andb_false_r.
   Qed.
 
-  Lemma not_yet_valid_rejected : forall tr st now a k, find_key tr st (a_sign_key a) = Some k ->
-    now < k_since k -> check_now verify tr st now a = false.
+  Lemma not_yet_valid_rejected : forall layers now a k, find_key layers (a_sign_key a) = Some k ->
+    now < k_since k -> check_now verify layers now a = false.
   Proof.
-    intros tr st now a k Hk Hlt. unfold check_now, check. rewrite Hk, valid_assuming_now.
+    intros layers now a k Hk Hlt. unfold check_now, check. rewrite Hk, valid_assuming_now.
     assert (valid_at k now = false) as ->.
     { unfold valid_at. apply andb_false_intro1. apply Z.leb_gt. lia. }
     rewrite andb_false_r. cbn. apply andb_false_r.
@@ -162,19 +180,29 @@ Section WithVerify.
      genuine one by changing its content or its decoded signature, unless the result is itself genuine. *)
   Lemma mutation_rejected_gen : forall (G : list (bytes * bytes * bytes)),
     (forall kid c s, verify kid c s = true -> In (kid, c, s) G) ->
-    forall tr st e l a, ~ In (a_sign_key a, a_content a, a_sig_core a) G -> check verify tr st e l a = false.
+    forall layers e l a, ~ In (a_sign_key a, a_content a, a_sig_core a) G -> check verify layers e l a = false.
   Proof.
-    intros G HG tr st e l a Hnot. destruct (check verify tr st e l a) eqn:E; [|reflexivity].
-    destruct (accept_implies _ _ _ _ _ E) as (_ & k & _ & _ & Hid & _ & _ & _ & _ & Hver).
+    intros G HG layers e l a Hnot. destruct (check verify layers e l a) eqn:E; [|reflexivity].
+    destruct (accept_implies _ _ _ _ E) as (_ & k & _ & _ & Hid & _ & _ & _ & _ & Hver).
     rewrite Hid in Hver. apply HG in Hver. contradiction.
   Qed.
 
   (* ... but the decoded signature itself is NOT pinned down: verification reads only the signature core, so two
      assertions that differ only in the unhashed subpacket area of the signature get the same verdict *)
-  Lemma sig_outside_core_ignored : forall tr st e l a s',
-    check verify tr st e l (mkA (a_supported a) (a_authority a) (a_sign_key a) (a_timestamp a) (a_headers a) (a_content a) s' (a_sig_core a))
-    = check verify tr st e l a.
+  Lemma sig_outside_core_ignored : forall layers e l a s',
+    check verify layers e l (mkA (a_supported a) (a_authority a) (a_sign_key a) (a_timestamp a) (a_headers a) (a_content a) s' (a_sig_core a))
+    = check verify layers e l a.
   Proof. intros. reflexivity. Qed.
+
+  (* a constrained / expired newer revision in an earlier layer cannot be bypassed through an older revision in a later
+     layer: the verdict does not depend on anything after the first layer holding the key id *)
+  Lemma later_layers_ignored : forall before ly after after' e l a k,
+    (forall l', In l' before -> find (has_id (a_sign_key a)) l' = None) -> find (has_id (a_sign_key a)) ly = Some k ->
+    check verify (before ++ ly :: after) e l a = check verify (before ++ ly :: after') e l a.
+  Proof.
+    intros before ly after after' e l a k Hnone Hl. unfold check.
+    destruct (first_layer_decides before ly after after' _ k Hnone Hl) as [-> ->]. reflexivity.
+  Qed.
 End WithVerify.
 
 (* the instance the correspondence uses satisfies the idealisation for the single genuine signature *)
